@@ -31,6 +31,7 @@ fn main() {
         "c07" => wire::run_c07(&tier, seed, &mut out),
         "c08" => cursor::run_c08(&tier, seed, &mut out),
         "loop" | "loopadv" => runtime::run_stream(&args[1], &tier, seed, &mut out),
+        "ignore" => runtime::run_ignore_stream(&tier, seed, &mut out),
         "compile" => lang::run_compile_basic(&tier, seed, &mut out),
         "c10" => lang::run_c10(&tier, seed, &mut out),
         "c14" => lang::run_c14(&tier, seed, &mut out),
@@ -49,7 +50,11 @@ fn main() {
                 let cmd = it.next().unwrap_or("");
                 let arg = it.next().unwrap_or("");
                 let res = eval(cmd, arg);
-                let arg2 = if cmd == "loop" { runtime::with_descriptors(arg, &runtime::prog_descriptors()) } else { arg.to_string() };
+                let arg2 = if cmd == "loop" { runtime::with_descriptors(arg, &runtime::prog_descriptors()) }
+                    else if cmd == "ignore" {
+                        let d = runtime::prog_descriptors();
+                        match arg.split_once(" ## ") { Some((a, b)) => format!("{} ## {}", runtime::with_descriptors(a, &d), runtime::with_descriptors(b, &d)), None => arg.to_string() }
+                    } else { arg.to_string() };
                 writeln!(out, "{}\t{}\t{}", cmd, arg2, res).unwrap();
             }
         }
@@ -63,6 +68,7 @@ fn eval(cmd: &str, arg: &str) -> String {
     match name {
         "cursor" => cursor::eval(param, arg),
         "loop" => runtime::eval(arg),
+        "ignore" => runtime::eval_ignore(arg),
         "compile" => lang::eval(arg),
         "dp" => "PENDING-CREF".to_string(),
         "frombuf" => wire::frombuf_str(&util::unhex(arg)),
